@@ -269,7 +269,12 @@ class Predicates(PredicatesBase, qset[Predicate]):
         # mismatch.
         get = self._lookup.get
         conflicts: dict[Predicate, Predicate]|None = None
+        # Arriving predicates must not conflict among themselves either.
+        refs: dict[Any, Predicate] = {}
         for pred in arriving:
+            for other in map(refs.setdefault, pred.refs, repeat(pred)):
+                if other != pred:
+                    raise Emsg.ValueConflictFor(pred, pred.spec, other.spec)
             for prior in filter(None, map(get, pred.refs)):
                 if prior != pred:
                     if conflicts is None:
